@@ -11,7 +11,8 @@ PROP_ID = "C01"
 LEVEL = "exploration"
 RULE = (
     "Domains: (a) every partial matching on 1..n for all n<=N (exhaustive; N=9 quick, N=11 thorough); "
-    "(b) Hypothesis blow-ups: abstract matching of <=8 (quick) / <=12 (thorough) pairs in any crossing pattern, "
+    "(a') every chord diagram on k spaced chords (k stems of one pair: all conflict topologies and stem orders), k=5 "
+    "quick, k=5,6 thorough; (b) Hypothesis blow-ups: abstract matching of <=8 (quick) / <=12 (thorough) pairs in any crossing pattern, "
     "each expanded into a stem of 1-6 pairs with unpaired runs of 0-5; (c) ladders of k=1..30 mutually crossing "
     "stems; (d) balanced dot-bracket strings over up to 30 bracket types, built by construction. For every "
     "structure every encoder (dot_bracket, fcfs, each member of all_dot_brackets when the enumeration is "
@@ -200,6 +201,9 @@ def plan(tier, seed):
         ladders = list(range(1, 31))
     for k in range(K):
         specs.append({"kind": "exhaustive", "N": N, "slice": k, "of": K})
+    for k, shards in ([(5, 2)] if tier == "quick" else [(5, 1), (6, 10)]):
+        for sl in range(shards):
+            specs.append({"kind": "chords", "k": k, "slice": sl, "of": shards})
     for idx, (kind, n, m) in enumerate(hyp):
         specs.append({"kind": kind, "examples": n, "max_abstract": m, "seed": seed * 1000 + idx})
     specs.append({"kind": "ladders", "ks": ladders, "milp_upto": 10 if tier == "quick" else 16})
@@ -222,6 +226,16 @@ def run_shard(spec) -> ShardResult:
                 idx += 1
         res.exhaustive = True
         res.extra["exhaustive_structures"] = res.evaluations
+    elif kind == "chords":
+        # every chord diagram on k spaced chords = every conflict topology and stem order with exactly k stems
+        for idx, chords in enumerate(ssref.perfect_matchings(spec["k"])):
+            if idx % spec["of"] == spec["slice"]:
+                case = ssref.chord_structure(chords)
+                nt, labs = classify_structure(case)
+                res.note_case([case[0], list(case[1])], nt, labs + [f"chord-diagram-k={spec['k']}"], sample_cap=1)
+                check_case(PROP_ID, oracle_structure, case, res, to_json=lambda c: [c[0], list(c[1])])
+        res.exhaustive = True
+        res.extra[f"chord_diagrams_k{spec['k']}"] = res.evaluations
     elif kind == "blowup":
         from hypothesis import strategies as st
 
